@@ -109,7 +109,10 @@ class Fs:
             adj = 1 if (self.first_data_block == 0 and self.bs == 1024) else 0
             return self.first_data_block + 1 + adj + i
         g = i * self.desc_per_block
-        return self.group_first_block(g) + (1 if self.bg_has_super(g) else 0)
+        first = self.group_first_block(g)
+        if first == 0 and self.bs == 1024:
+            first = 1          # 1k blocks with s_first_data_block 0 (bigalloc): block 0 is not part of group 0
+        return first + (1 if self.bg_has_super(g) else 0)
 
     def gd_raw(self, g):
         blk = self.block(self.desc_block_loc(g // self.desc_per_block))
